@@ -50,4 +50,132 @@ theorem objkey_agree_aes (P : Prims) (key : Bytes) (objid genno : Nat) (hk : 11 
     leBytes_length]
   omega
 
+/-! ## revisions 2-4: both passwords are accepted -/
+
+/-- The Encrypt dictionary entries a conforming writer stores for a revision 2-4 configuration. -/
+def params234 (c : Cfg) (v : Int) (o u : Bytes) : Params :=
+  { v := v, r := c.r, p := c.p, o := o, u := u, length := c.length,
+    encryptMetadata := c.encryptMetadata, docid0 := c.id0 }
+
+/-- `compute_encryption_key` is Algorithm 2 of the standard. -/
+theorem computeKey_is_alg2 (P : Prims) (c : Cfg) (v : Int) (o u pw : Bytes)
+    (hr : c.r = 2 ∨ c.r = 3 ∨ c.r = 4) (hp : -4294967296 ≤ c.p) :
+    computeEncryptionKey P (params234 c v o u) c.length (uintValue32 c.p) pw
+      = alg2Key P c (pad32 pw) o := by
+  unfold computeEncryptionKey alg2Key
+  simp only [params234]
+  rw [padPassword_eq, pBytes_eq c.p hp, keyBytes_eq c hr]
+  rfl
+
+/-- Algorithm 6 accepts the U that Algorithms 4/5 produce from the same key. -/
+theorem verifyKey_writer (P : Prims) (hP : PrimsOK P) (c : Cfg) (v : Int) (o key tail : Bytes)
+    (hr : c.r = 2 ∨ c.r = 3 ∨ c.r = 4) :
+    verifyKey P (params234 c v o (alg45U P c key tail)) key = true := by
+  have hlen : (rc4Layers key (List.range' 1 19) (rc4Core key (P.md5 (isoPad ++ c.id0)))).length = 16 := by
+    rw [rc4Layers_length, rc4Core_length, hP.md5_len]
+  unfold verifyKey computeU alg45U
+  simp only [params234, padding_eq, U_ROUND_LO, U_ROUND_HI, U_CHECK_LEN]
+  rcases hr with h | h | h
+  · simp [h]
+  · simp only [h, show ¬ ((3 : Int) = 2) by decide, if_false]
+    change (List.take 16 (rc4Layers key (List.range' 1 19) _ ++ rc4Layers key (List.range' 1 19) _)
+      == List.take 16 (rc4Layers key (List.range' 1 19) _ ++ tail)) = true
+    rw [List.take_left' hlen, List.take_left' hlen]
+    simp
+  · simp only [h, show ¬ ((4 : Int) = 2) by decide, if_false]
+    change (List.take 16 (rc4Layers key (List.range' 1 19) _ ++ rc4Layers key (List.range' 1 19) _)
+      == List.take 16 (rc4Layers key (List.range' 1 19) _ ++ tail)) = true
+    rw [List.take_left' hlen, List.take_left' hlen]
+    simp
+
+/-- **The user password opens the document** (revisions 2-4): for the O, U and file key that the
+    standard's Algorithms 2-5 produce from any user/owner password pair, P, ID and EncryptMetadata
+    setting, `authenticate_user_password(user)` returns exactly that file key. -/
+theorem user_pw_accepts (P : Prims) (hP : PrimsOK P) (c : Cfg) (v : Int) (userPw ownerPw tail : Bytes)
+    (hr : c.r = 2 ∨ c.r = 3 ∨ c.r = 4) (hp : -4294967296 ≤ c.p) :
+    authUser P (params234 c v (derive234 P c (pad32 userPw) (pad32 ownerPw) tail).1
+        (derive234 P c (pad32 userPw) (pad32 ownerPw) tail).2.1) c.length (uintValue32 c.p) userPw
+      = some (derive234 P c (pad32 userPw) (pad32 ownerPw) tail).2.2 := by
+  have hk := computeKey_is_alg2 P c v (alg3O P c (pad32 ownerPw) (pad32 userPw))
+    (alg45U P c (alg2Key P c (pad32 userPw) (alg3O P c (pad32 ownerPw) (pad32 userPw))) tail) userPw hr hp
+  have hv := verifyKey_writer P hP c v (alg3O P c (pad32 ownerPw) (pad32 userPw))
+    (alg2Key P c (pad32 userPw) (alg3O P c (pad32 ownerPw) (pad32 userPw))) tail hr
+  show authUser P (params234 c v (alg3O P c (pad32 ownerPw) (pad32 userPw))
+      (alg45U P c (alg2Key P c (pad32 userPw) (alg3O P c (pad32 ownerPw) (pad32 userPw))) tail))
+      c.length (uintValue32 c.p) userPw
+    = some (alg2Key P c (pad32 userPw) (alg3O P c (pad32 ownerPw) (pad32 userPw)))
+  unfold authUser
+  simp only [hk, hv, if_true]
+
+/-- Algorithm 7 recovers the padded user password from O: the 20 RC4 layers (one for revision 2)
+    are peeled off in reverse order, each by `rc4_involution`. -/
+theorem owner_recovers_user (P : Prims) (c : Cfg) (v : Int) (u ownerPw pu : Bytes)
+    (hr : c.r = 2 ∨ c.r = 3 ∨ c.r = 4) :
+    recoverUser P (params234 c v (alg3O P c (pad32 ownerPw) pu) u) c.length ownerPw = pu := by
+  unfold recoverUser ownerKey alg3O
+  simp only [params234]
+  rw [padPassword_eq, keyBytes_eq c hr]
+  have layers : ∀ k : Bytes, rc4Layers k OWNER_LAYERS
+      ((List.range' 1 19).foldl (fun acc i => rc4Core (xorKey k i) acc) (rc4Core k pu)) = pu := by
+    intro k
+    have h20 : (List.range' 1 19).foldl (fun acc i => rc4Core (xorKey k i) acc) (rc4Core k pu)
+        = rc4Layers k (List.range 20) pu := by
+      rw [range20]; simp only [rc4Layers, List.foldl_cons, xorKey_zero]
+    rw [h20, owner_layers_eq, rc4Layers_reverse]
+  rcases hr with h | h | h
+  · simp only [h, show ¬ ((2 : Int) ≥ 3) by decide, if_false, if_true]
+    exact rc4Core_rc4Core _ _
+  · simp only [h, show ((3 : Int) ≥ 3) by decide, show ¬ ((3 : Int) = 2) by decide, if_false, if_true,
+      OWNER_KEY_ROUNDS]
+    exact layers _
+  · simp only [h, show ((4 : Int) ≥ 3) by decide, show ¬ ((4 : Int) = 2) by decide, if_false, if_true,
+      OWNER_KEY_ROUNDS]
+    exact layers _
+
+/-- **The owner password opens the document** (revisions 2-4):
+    `authenticate_owner_password(owner)` returns the file key. -/
+theorem owner_pw_accepts (P : Prims) (hP : PrimsOK P) (c : Cfg) (v : Int) (userPw ownerPw tail : Bytes)
+    (hr : c.r = 2 ∨ c.r = 3 ∨ c.r = 4) (hp : -4294967296 ≤ c.p) :
+    authOwner P (params234 c v (derive234 P c (pad32 userPw) (pad32 ownerPw) tail).1
+        (derive234 P c (pad32 userPw) (pad32 ownerPw) tail).2.1) c.length (uintValue32 c.p) ownerPw
+      = some (derive234 P c (pad32 userPw) (pad32 ownerPw) tail).2.2 := by
+  have hrec := owner_recovers_user P c v
+    (alg45U P c (alg2Key P c (pad32 userPw) (alg3O P c (pad32 ownerPw) (pad32 userPw))) tail)
+    ownerPw (pad32 userPw) hr
+  have hk := computeKey_is_alg2 P c v (alg3O P c (pad32 ownerPw) (pad32 userPw))
+    (alg45U P c (alg2Key P c (pad32 userPw) (alg3O P c (pad32 ownerPw) (pad32 userPw))) tail)
+    (pad32 userPw) hr hp
+  rw [pad32_pad32] at hk
+  have hv := verifyKey_writer P hP c v (alg3O P c (pad32 ownerPw) (pad32 userPw))
+    (alg2Key P c (pad32 userPw) (alg3O P c (pad32 ownerPw) (pad32 userPw))) tail hr
+  show authOwner P (params234 c v (alg3O P c (pad32 ownerPw) (pad32 userPw))
+      (alg45U P c (alg2Key P c (pad32 userPw) (alg3O P c (pad32 ownerPw) (pad32 userPw))) tail))
+      c.length (uintValue32 c.p) ownerPw
+    = some (alg2Key P c (pad32 userPw) (alg3O P c (pad32 ownerPw) (pad32 userPw)))
+  unfold authOwner
+  rw [hrec]
+  unfold authUser
+  simp only [hk, hv, if_true]
+
+/-- `PDFStandardSecurityHandler.authenticate` with the user password (as a str of code points
+    < 256): the document opens with the file key.  `8 ≤ length`: the key is not empty. -/
+theorem authenticate_user_accepts (P : Prims) (hP : PrimsOK P) (c : Cfg) (v : Int)
+    (userCps : List Nat) (userPw ownerPw tail : Bytes)
+    (hr : c.r = 2 ∨ c.r = 3 ∨ c.r = 4) (hp : -4294967296 ≤ c.p) (hp0 : c.p ≠ 0) (hp32 : c.p < 4294967296)
+    (hl : 8 ≤ c.length) (henc : encodeLatin1 userCps = some userPw) :
+    authenticate234 P (params234 c v (derive234 P c (pad32 userPw) (pad32 ownerPw) tail).1
+        (derive234 P c (pad32 userPw) (pad32 ownerPw) tail).2.1) c.length (uintValue32 c.p) userCps
+      = .ok (derive234 P c (pad32 userPw) (pad32 ownerPw) tail).2.2 := by
+  have h := user_pw_accepts P hP c v userPw ownerPw tail hr hp
+  unfold authenticate234
+  rw [henc]
+  have hp' : ¬ uintValue32 c.p ≥ 4294967296 := by unfold uintValue32; split <;> omega
+  have hkb : ∀ r : Int, ¬ keyBytes r c.length = 0 := by
+    intro r
+    unfold keyBytes BITS_PER_KEY_BYTE KEY_BYTES_R2
+    by_cases h3 : r ≥ 3
+    · rw [if_pos h3]; omega
+    · rw [if_neg h3]; omega
+  simp only [hp', hkb _, if_false, h]
+
 end PdfVerif.Props.C10
